@@ -63,6 +63,8 @@ def plan(tier, seed):
         specs.append({"name": "high%d" % i, "kind": "high", "shard": i, "cases": 4000 if tier == "quick" else 200000, "timeout": 5000})
     for i in range(2):
         specs.append({"name": "gfields%d" % i, "kind": "gfields", "shard": i, "cases": 1500 if tier == "quick" else 100000, "timeout": 5000})
+    for i in range(2):
+        specs.append({"name": "paaw%d" % i, "kind": "paaw", "shard": i, "cases": 60 if tier == "quick" else 1500, "timeout": 5000})
     if tier == "thorough":
         specs.append({"name": "gridbc", "kind": "grid", "cells": [c for c in cells if c[2] <= 3000], "timeout": 3000,
                       "mode": {"boundscheck": True}})
@@ -72,7 +74,8 @@ def plan(tier, seed):
 def required(tier):
     return {"index_checked": 20000, "inverse_checked": 20000, "walk_steps": 20000, "coef_checked": 3000,
             "coef_beyond_table": 500, "large_roundtrips": 2000, "count_unique_checked": 1000, "spaces_exhausted": 60,
-            "high_ploidy_spaces_exhausted": 40, "high_ploidy_coef_checked": 3000, "high_ploidy_roundtrips": 8000, "gfields_posterior_arrays_checked": 2000, "gfields_arrays_with_some_impossible_genotypes": 800, "gfields_likelihood_arrays_checked": 500}
+            "high_ploidy_spaces_exhausted": 40, "high_ploidy_coef_checked": 3000, "high_ploidy_roundtrips": 8000, "gfields_posterior_arrays_checked": 2000, "gfields_arrays_with_some_impossible_genotypes": 800, "gfields_likelihood_arrays_checked": 500,
+            "posterior_as_array_wide_checked": 80, "posterior_as_array_wide_index_ge_2^15": 60, "posterior_as_array_wide_int16": 15}
 
 
 def coverage_extra(tier, col):
@@ -428,6 +431,56 @@ def run_high(spec, col, tier):
 
 
 
+def run_paa_wide(spec, col):
+    """posterior_as_array on LARGE genotype spaces (40 000 - 3 000 000 genotypes: hexaploids over 15-25 haplotypes, tetraploids
+    over 30-90, diploids over 300-2000) with the integer types the samplers store their traces in (int8 where the alleles fit,
+    int16 = call-pedigree, int32 = call, int64): every probability must sit at the VCF index of its genotype (math.comb oracle)
+    and every other position must be zero."""
+    from mchap.calling.utils import posterior_as_array
+
+    for c in range(spec["cases"]):
+        rng = gen.rng_for(int(spec.get("seed", 0)), ID, 90 + spec["shard"], c)
+        ploidy, na = [(6, int(rng.integers(15, 26))), (4, int(rng.integers(30, 91))), (2, int(rng.integers(300, 2001))), (8, int(rng.integers(8, 13))),
+                      (3, int(rng.integers(60, 200)))][c % 5]
+        n = math.comb(na + ploidy - 1, ploidy)
+        if n > 3_000_000:
+            continue
+        k = int(rng.integers(1, 30))
+        gset = set()
+        while len(gset) < k:
+            r_ = rng.random()
+            if r_ < 0.4:
+                g = tuple(sorted(int(a) for a in rng.integers(0, na, size=ploidy)))
+            elif r_ < 0.7:
+                g = tuple(sorted(int(a) for a in rng.integers(max(0, na - 3), na, size=ploidy)))   # the far end of the array
+            else:
+                g = tuple(sorted([na - 1] + [int(a) for a in rng.integers(0, na, size=ploidy - 1)]))
+            gset.add(g)
+        gl = sorted(gset)
+        probs = rng.dirichlet(np.ones(len(gl)))
+        want_idx = [sum(math.comb(a + i, i + 1) for i, a in enumerate(g)) for g in gl]
+        dts = [np.int16, np.int32, np.int64] + ([np.int8] if na <= 127 else [])
+        dt = dts[int(rng.integers(len(dts)))]
+        col.case("PAAW|%d|%d" % (spec["shard"], c), nontrivial=True)
+        try:
+            out = np.asarray(posterior_as_array(np.array(gl, dtype=dt), probs.copy(), n), dtype=float)
+        except Exception as ex:  # noqa: BLE001
+            col.violation("posterior-array-misplaced", "posterior_as_array raised %r (ploidy %d, %d alleles, %s genotypes, %d genotypes)" % (ex, ploidy, na, dt.__name__, n),
+                          {"kind": "paaw", "ploidy": ploidy, "n_alleles": na, "dtype": dt.__name__})
+            continue
+        col.count("posterior_as_array_wide_checked")
+        col.count("posterior_as_array_wide_%s" % dt.__name__)
+        if max(want_idx) >= 32768:
+            col.count("posterior_as_array_wide_index_ge_2^15")
+        want = np.zeros(n)
+        want[want_idx] = probs
+        if out.shape != (n,) or not np.array_equal(out, want):
+            bad = int(np.nonzero(out != want)[0][0]) if out.shape == (n,) else -1
+            col.violation("posterior-array-misplaced", "posterior_as_array(%s genotypes, ploidy %d, %d alleles, %d genotypes): position %d holds %r, expected %r; the genotypes %s belong at %s"
+                          % (dt.__name__, ploidy, na, n, bad, float(out[bad]) if bad >= 0 else None, float(want[bad]) if bad >= 0 else None, [list(g) for g in gl[:3]], want_idx[:3]),
+                          {"kind": "paaw", "ploidy": ploidy, "n_alleles": na, "dtype": dt.__name__})
+
+
 def run_gfields(spec, col):
     """The producers of G-length arrays in the exact caller: position i of genotype_posteriors / genotype_likelihoods must
     belong to the i-th genotype of the VCF order, whatever the values are - including likelihoods of exactly -inf (hard 0/1
@@ -495,6 +548,8 @@ def run_shard(tier, seed, spec, col):
     spec["seed"] = seed
     if spec["kind"] == "gfields":
         return run_gfields(spec, col)
+    if spec["kind"] == "paaw":
+        return run_paa_wide(spec, col)
     if spec["kind"] == "high":
         return run_high(spec, col, tier)
     {"grid": run_grid, "coef": run_coef, "large": run_large, "count": run_count}[spec["kind"]](spec, col)
